@@ -82,6 +82,7 @@ Has(op) == op \in Ops
 
 VARIABLES at,     \* Atomic:        [set |-> a value was ever stored, val |-> it]
           sy,     \* Synchronized:  the protected value
+          ax,     \* AccessorsWithLock / AccessorsWithReadLock: the variable behind the getter / setter pair
           on,     \* Once:          [ctor, called, defined, done, comp]
           mn,     \* Mnemonize:     [done, val]
           mp,     \* Map:           function from the present keys to object ids
@@ -92,8 +93,8 @@ VARIABLES at,     \* Atomic:        [set |-> a value was ever stored, val |-> it
           drp,    \* ids the client has dropped its last reference to
           vk,     \* kind of the value-typed pool
           hist
-vars == <<at, sy, on, mn, mp, pl, ob, held, fin, drp, vk, hist>>
-view == <<at, sy, on, mn, mp, pl, ob, held, fin, drp, vk>>
+vars == <<at, sy, ax, on, mn, mp, pl, ob, held, fin, drp, vk, hist>>
+view == <<at, sy, ax, on, mn, mp, pl, ob, held, fin, drp, vk>>
 
 Last == hist[Len(hist)]
 
@@ -123,10 +124,10 @@ AtomicStep ==
             ELSE at' = ASet(0) /\ RecA([op |-> "reset"], S(AGet(at)))
 
 (* ------------------------------------------------------------ Synchronized *)
-PSync(x) == [get |-> x, str |-> S(x)]
-RecS(call, ret) == hist' = Append(hist, call @@ [ret |-> ret, st |-> PSync(sy')])
+PSync(x, a) == [get |-> x, str |-> S(x), acc |-> a]
+RecS(call, ret) == hist' = Append(hist, call @@ [ret |-> ret, st |-> PSync(sy', ax')])
 
-SyncStep ==
+SyncCore ==
     \/ \E op \in {"get", "load", "with", "string"} : Has(op) /\ sy' = sy /\ RecS([op |-> op], S(sy))
     \/ Has("using") /\ sy' = sy /\ RecS([op |-> "using"], "-")
     \/ \E op \in {"set", "store"}, v \in V0 : Has(op) /\ sy' = v /\ RecS([op |-> op, v |-> v], "-")
@@ -134,6 +135,14 @@ SyncStep ==
     \/ \E o \in V0, n \in V0 : Has("cas") /\ sy' = (IF sy = o THEN n ELSE sy) /\ RecS([op |-> "cas", o |-> o, v |-> n], B(sy = o))
     \/ \E v \in V0 : Has("safeset") /\ sy' = (IF v = 0 THEN sy ELSE v) /\ RecS([op |-> "safeset", v |-> v], "-")
     \/ Has("reset") /\ sy' = 0 /\ RecS([op |-> "reset"], S(sy))
+
+\* AccessorsWithLock / AccessorsWithReadLock(getter, setter): "all read/write operations are fully synchronized with
+\* regards to eachother" - sequentially the pair is a register over the client's variable
+AccStep ==
+    \/ Has("accget") /\ UNCHANGED <<sy, ax>> /\ RecS([op |-> "accget"], S(ax))
+    \/ \E v \in V0 : Has("accset") /\ ax' = v /\ sy' = sy /\ RecS([op |-> "accset", v |-> v], "-")
+
+SyncStep == (ax' = ax /\ SyncCore) \/ AccStep
 
 (* -------------------------------------------------------------------- Once *)
 \* user functions: "f<v>" returns v, "fp" panics, "nil" is a nil func() T
@@ -410,7 +419,7 @@ InitRec(extra) == hist = <<[op |-> "new", comp |-> Comp, keys |-> K, vals |-> V]
 
 Init ==
     /\ at \in (IF Comp = "atomic" THEN {[set |-> FALSE, val |-> 0]} \cup {ASet(v) : v \in V0} ELSE {[set |-> FALSE, val |-> 0]})
-    /\ sy \in (IF Comp = "sync" THEN V0 ELSE {0})
+    /\ sy \in (IF Comp = "sync" THEN V0 ELSE {0}) /\ ax = 0
     /\ on \in (IF Comp = "once" THEN {OnceZero} \cup {[OnceZero EXCEPT !.ctor = f, !.defined = TRUE] : f \in Fn} ELSE {OnceZero})
     /\ mn = [done |-> FALSE, val |-> 0]
     /\ mp = [k \in {} |-> 0]
@@ -421,18 +430,18 @@ Init ==
     /\ held = {} /\ fin = {} /\ drp = {}
     /\ vk \in (IF Comp = "vpool" THEN VKinds ELSE {"-"})
     /\ InitRec(CASE Comp = "atomic" -> [set |-> B(at.set), v |-> at.val, st |-> PAtomic(at)]
-                 [] Comp = "sync" -> [v |-> sy, st |-> PSync(sy)]
+                 [] Comp = "sync" -> [v |-> sy, st |-> PSync(sy, ax)]
                  [] Comp = "once" -> [f |-> on.ctor, st |-> POnce(on, mn)]
                  [] Comp = "map" -> [f |-> pl.ctor, st |-> PMap(mp, ob)]
                  [] Comp = "pool" -> [st |-> PPool(pl, held)]
                  [] Comp = "vpool" -> [kind |-> vk, st |-> PPool(pl, held)])
 
-Step == \/ Comp = "atomic" /\ AtomicStep /\ UNCHANGED <<sy, on, mn, mp, pl, ob, held, fin, drp, vk>>
+Step == \/ Comp = "atomic" /\ AtomicStep /\ UNCHANGED <<sy, ax, on, mn, mp, pl, ob, held, fin, drp, vk>>
         \/ Comp = "sync" /\ SyncStep /\ UNCHANGED <<at, on, mn, mp, pl, ob, held, fin, drp, vk>>
-        \/ Comp = "once" /\ OnceStep /\ UNCHANGED <<at, sy, mp, pl, ob, held, fin, drp, vk>>
-        \/ Comp = "map" /\ MapStep /\ UNCHANGED <<at, sy, on, mn, held, vk>>
-        \/ Comp = "pool" /\ PoolStep /\ UNCHANGED <<at, sy, on, mn, mp, vk>>
-        \/ Comp = "vpool" /\ VStep /\ UNCHANGED <<at, sy, on, mn, mp, vk>>
+        \/ Comp = "once" /\ OnceStep /\ UNCHANGED <<at, sy, ax, mp, pl, ob, held, fin, drp, vk>>
+        \/ Comp = "map" /\ MapStep /\ UNCHANGED <<at, sy, ax, on, mn, held, vk>>
+        \/ Comp = "pool" /\ PoolStep /\ UNCHANGED <<at, sy, ax, on, mn, mp, vk>>
+        \/ Comp = "vpool" /\ VStep /\ UNCHANGED <<at, sy, ax, on, mn, mp, vk>>
 
 Next == Len(hist) < Depth + 1 /\ Step
 Spec == Init /\ [][Next]_vars
